@@ -13,19 +13,26 @@ REGISTRATION = {
     "engine": "lean-lockset",
     "technique": "Lean 4 lockset theorem over access facts regenerated from the source + race-detector witness search",
     "category": "proof",
-    "text": "A general, kernel-checked theorem (any number of threads, mutexes, locations; every well-formed "
-            "interleaving): if every pair of conflicting accesses of a location class holds a common mutex (or is by one "
-            "singleton thread, or read-only), no two conflicting accesses are unordered. A go/ast+go/types translator "
-            "regenerates on every run, from the working tree, one fact per read/write of the scheduler's loaded map, "
-            "every runnerRef field, Server.sched, the transfer managers and blobDownload/blobUpload fields and "
-            "intermediateBlobs, with the mutexes syntactically held (call-graph propagated); Lean re-evaluates the "
-            "discipline on that table by `decide`. An in-process server is then hammered under `go test -race`; every "
-            "race report must fall on a pair the static facts flag, and HTTP results are monitored for recovered "
-            "panics, process crashes and torn /api/ps views.",
+    "text": "Kernel-checked general theorems (any number of threads, mutexes, locations; every well-formed interleaving): "
+            "(1) lockset: if every pair of conflicting accesses of a location class holds a common mutex (or is by one "
+            "singleton thread, or read-only), no two conflicting accesses are unordered — also stated from the thread-local "
+            "syntactic lockset; (2) object life cycle: a pointer found in the registry under the registry lock, or re-checked "
+            "non-nil under the object's lock, is never seen torn down while that lock stays held (a reader that snapshots under "
+            "loadedMu and reads under refMu is race-free yet observes an unloaded runner: Lean witness). A go/ast+go/types "
+            "translator regenerates on every run, from the working tree, one fact per read/write of the scheduler's loaded map, "
+            "every runnerRef field, Server.sched, the transfer managers, blobDownload/blobUpload fields and intermediateBlobs, "
+            "with the mutexes syntactically held (call-graph propagated) and, for uses of fields unload() clears, whether the "
+            "pointer is still live / re-validated; Lean re-evaluates both rules on that table by `decide`; the rule "
+            "implementations (Go vs Lean) are compared exactly on thousands of random tables per run (L1). The holder "
+            "ordering is taken from C01's theorems for the scheduler variant extracted from the tree. An in-process server is "
+            "then hammered under `go test -race` (random mix incl. failing loads and clients that go away, plus a directed "
+            "ps-during-failed-load search); every race report must fall on a statically flagged pair, and HTTP results are "
+            "monitored for recovered panics, process crashes, /api/ps 5xx, /api/ps that never returns and torn /api/ps views.",
     "design_ref": "DESIGN.md §5 C15",
     "note": COMMON_NOTE + "Partial by nature: the theorem is about lock-granularity traces and takes the non-lock "
-            "orderings as named hypotheses (fresh-object publication, atomics/sync.Map, spawn order, channel "
-            "happens-before for the holder of a runner = C01, close(done)); the translator is syntactic (aliasing of "
+            "orderings as named hypotheses (fresh-object publication, atomics/sync.Map, spawn order, close(done); the "
+            "holder ordering is discharged through C01's tie except for F13f); `live`/`valid`/locksets are syntactic "
+            "(continuity of a hold is judged on the text); the translator is syntactic (aliasing of "
             "runner variables, accesses through pointers taken with &, state outside the property's anchors are not "
             "seen); the race detector is a schedule-dependent witness search, not a proof.",
 }
@@ -349,7 +356,9 @@ def run(ctx):
         holder_text = ("holder ordering (the handler's read of runner.llama after the hand-over vs unload): not assumed — for the "
                        "scheduler variant extracted from this tree (recheckGrant, guardDelete) it is C01's theorems, instantiated "
                        "in Tie.C15.holder_granted_runner_is_open / holder_runner_not_closed_while_used; what remains assumed is "
-                       "C01's model-to-code correspondence (its own differential check)")
+                       "C01's model-to-code correspondence (its own differential check). Outside those theorems, and false on "
+                       "this tree (known finding F13f): the model's hold ends when the request context is done, but "
+                       "scheduleRunner's unlocked read of runner.llama can come after that (client gone between hand-over and read)")
     else:
         holder_text = ("holder hypothesis (C01): no unload of a runner between its hand-over on successCh and the end of the "
                        "request — NOT discharged for this tree (the scheduler tie does not classify it as the guarded variant)")
